@@ -396,14 +396,14 @@ Qed.
 Local Opaque pg_reserve.
 
 Lemma pgt_copied_src : forall src dst fid, pgt_dR src (fst (fst (fst (pg_copied src dst fid)))).
-Proof. idtac "start".
+Proof.
   intros src dst fid. apply (pgz_copied_src (pgt_dR src)); [|apply pgt_dR_refl].
   intros p H. eapply pgt_dR_trans; [exact H|apply pgt_all].
 Qed.
 
 Lemma pgt_copied_dst : forall src dst fid,
   pgt_keep (fun j => pg_is_null (pd_store dst) (PvRef j) = true) (pd_store dst) (pd_store (snd (fst (fst (pg_copied src dst fid))))).
-Proof. idtac "start".
+Proof.
   intros src dst fid j Ht Hj.
   assert (Hn : pg_is_null (pd_store dst) (PvRef j) = false) by (destruct (pg_is_null (pd_store dst) (PvRef j)); [exfalso; apply Ht; reflexivity|reflexivity]).
   apply pgt_ok_eq; [|exact Hj].
@@ -419,13 +419,13 @@ Definition pgt_wC (c : bool) (d : bool) (w w' : pg_world) : Prop :=
   (c = false -> pd_omap (pg_get w' d) = pd_omap (pg_get w d)).
 
 Lemma pgt_wC_of_R : forall c d w w', pgt_wR w w' -> pgt_wC c d w w'.
-Proof. idtac "start".
+Proof.
   intros c d w w' H. destruct (H (negb d)) as (A & B & C & D). destruct (H d) as (A' & B' & _).
   split; [exact (H (negb d))|split; [apply pgt_le_any, A'|intros _; exact B']].
 Qed.
 
 Lemma pgt_wC_trans_R_l : forall c d w w1 w2, pgt_wR w w1 -> pgt_wC c d w1 w2 -> pgt_wC c d w w2.
-Proof. idtac "start".
+Proof.
   intros c d w w1 w2 H (A & B & C). destruct (H d) as (A' & B' & _).
   split; [eapply pgt_dR_trans; [apply H|exact A]|split].
   - eapply pgt_keep_trans_gen; [exact A'|exact B| |].
@@ -435,7 +435,7 @@ Proof. idtac "start".
 Qed.
 
 Lemma pgt_wC_trans_R_r : forall c d w w1 w2, pgt_wC c d w w1 -> pgt_wR w1 w2 -> pgt_wC c d w w2.
-Proof. idtac "start".
+Proof.
   intros c d w w1 w2 (A & B & C) H. destruct (H d) as (A' & B' & _).
   split; [eapply pgt_dR_trans; [exact A|apply H]|split].
   - eapply pgt_keep_trans_gen; [exact B|exact A'| |].
@@ -444,25 +444,33 @@ Proof. idtac "start".
   - intros Hc. rewrite B'. exact (C Hc).
 Qed.
 
+Lemma pgt_wC_put2 : forall w b d src' dst', Bool.eqb b d = false ->
+  pgt_dR (pg_get w b) src' ->
+  pgt_keep (fun j => pg_is_null (pd_store (pg_get w d)) (PvRef j) = true) (pd_store (pg_get w d)) (pd_store dst') ->
+  pgt_wC true d w (pg_put (pg_put w b src') d dst').
+Proof.
+  intros [pa pb] b d src' dst' Hb. unfold pgt_wC.
+  destruct b, d; try discriminate Hb; cbn [pg_get pg_put fst snd negb]; intros H1 H2;
+    (split; [exact H1|split; [|intros H; discriminate H]]);
+    (eapply pgt_keep_weaken; [|exact H2]); intros j Hj; (split; [reflexivity|exact Hj]).
+Qed.
+
 Lemma pgt_wC_copied : forall w b d i, Bool.eqb b d = false ->
   pgt_wC true d w (pg_put (pg_put w b (fst (fst (fst (pg_copied (pg_get w b) (pg_get w d) i))))) d
                           (snd (fst (fst (pg_copied (pg_get w b) (pg_get w d) i))))).
-Proof. idtac "start".
-  intros [pa pb] b d i Hb.
-  unfold pgt_wC. destruct b, d; try discriminate Hb; cbn [pg_get pg_put fst snd negb];
-    (split; [apply pgt_copied_src|split; [|intros H; discriminate H]]);
-    refine (pgt_keep_weaken _ _ _ _ _ (pgt_copied_dst _ _ _)); intros j Hj; (split; [reflexivity|exact Hj]).
+Proof.
+  intros w b d i Hb. apply pgt_wC_put2; [exact Hb|apply pgt_copied_src|apply pgt_copied_dst].
 Qed.
 
 Lemma pgt_foreign_put : forall w d p h, pg_foreign_handle (pg_put w d p) d h = pg_foreign_handle w d h.
-Proof. idtac "start".
+Proof.
   intros w d p h. unfold pg_foreign_handle. destruct h as [v|b i]; [reflexivity|]. cbn [pg_norm]. rewrite pgt_get_put.
   destruct (Bool.eqb b d) eqn:E; [|reflexivity].
   destruct (pg_lookup (pd_store p) i); destruct (pg_lookup (pd_store (pg_get w b)) i); cbn [negb]; rewrite ?E; reflexivity.
 Qed.
 
 Lemma pgt_insert : forall w d h pos, pgt_wC (pg_foreign_handle w d h) d w (fst (pg_insert w d h pos)).
-Proof. idtac "start".
+Proof.
   intros w d h pos. unfold pg_insert. destruct (negb (pg_insertable w d h)); [apply pgt_wC_of_R, pgt_wR_refl|].
   pose proof (pgt_flatten (pg_get w d)) as Hf. destruct (pg_flatten (pg_get w d)) as [p e]. cbn [fst] in Hf.
   pose proof (pgt_wR_put w d p Hf) as R1. rewrite <- (pgt_foreign_put w d p h).
@@ -487,4 +495,68 @@ Proof. idtac "start".
       destruct e2; [exact H13|].
       pose proof (pgt_insert_local (pg_get w3 d) r pos) as H. destruct (pg_insert_local _ _ pos) as [q2 e2].
       cbn [fst] in *. eapply pgt_wC_trans_R_r; [exact H13|]. apply pgt_wR_put, H.
+Qed.
+
+(* ------------------------------------------------------------------ the step function *)
+Definition pgt_copies_into (w : pg_world) (o : pg_op) (d : bool) : bool :=
+  match o with
+  | PoCopyForeign d0 h | PoAddPage d0 h _ | PoHAddPage d0 h _ | PoAddPageAt d0 h _ _ => Bool.eqb d0 d && pg_foreign_handle w d0 h
+  | _ => false
+  end.
+
+Definition pgt_T (w : pg_world) (o : pg_op) (d : bool) (j : N) : Prop :=
+  match o with
+  | PoReplace d0 i _ | PoReplaceInd d0 i _ => d0 = d /\ j = i
+  | PoSwap d0 i k => d0 = d /\ (j = i \/ j = k)
+  | _ => False
+  end \/
+  (pgt_copies_into w o d = true /\ pg_is_null (pd_store (pg_get w d)) (PvRef j) = true).
+
+(* the statement of the main theorem for given target set and copy flag *)
+Definition pgt_fin (T : N -> Prop) (c : bool) (w w' : pg_world) (d : bool) : Prop :=
+  pgt_keep T (pd_store (pg_get w d)) (pd_store (pg_get w' d)) /\ (c = false -> pd_omap (pg_get w' d) = pd_omap (pg_get w d)).
+
+Lemma pgt_fin_of_R : forall T c w w' d, pgt_wR w w' -> pgt_fin T c w w' d.
+Proof. intros T c w w' d H. destruct (H d) as (A & B & _). split; [apply pgt_le_any, A|intros _; exact B]. Qed.
+
+Lemma pgt_fin_of_C : forall c d0 w w' d, pgt_wC c d0 w w' ->
+  pgt_fin (fun j => (Bool.eqb d0 d && c) = true /\ pg_is_null (pd_store (pg_get w d)) (PvRef j) = true) (Bool.eqb d0 d && c) w w' d.
+Proof.
+  intros c d0 w w' d (A & B & C). destruct (Bool.eqb d0 d) eqn:E.
+  - apply Bool.eqb_prop in E. subst d0. cbn [andb]. split; [exact B|exact C].
+  - assert (d = negb d0) as -> by (destruct d, d0; try reflexivity; discriminate E).
+    destruct A as (A1 & A2 & _). split; [apply pgt_le_any, A1|intros _; exact A2].
+Qed.
+
+Lemma pgt_fin_weaken : forall (T T' : N -> Prop) c w w' d, (forall j, T j -> T' j) -> pgt_fin T c w w' d -> pgt_fin T' c w w' d.
+Proof. intros T T' c w w' d H [A B]. split; [eapply pgt_keep_weaken; eassumption|exact B]. Qed.
+
+(* replacing the store of one document *)
+Lemma pgt_fin_store : forall (T0 : N -> Prop) c w d0 s d,
+  pgt_keep T0 (pd_store (pg_get w d0)) s ->
+  pgt_fin (fun j => d0 = d /\ T0 j) c w (pg_put w d0 (pd_with_store (pg_get w d0) s)) d.
+Proof.
+  intros T0 c [pa pb] d0 s d H. unfold pgt_fin.
+  destruct d0, d; cbn [pg_get pg_put fst snd pd_with_store pd_store pd_omap] in *;
+    (split; [|intros _; reflexivity]);
+    first [ apply pgt_keep_refl | eapply pgt_keep_weaken; [|exact H]; intros j Hj; split; [reflexivity|exact Hj] ].
+Qed.
+
+(* the operations that can copy from the other document *)
+Lemma pgt_step_insert : forall w d0 h pos d (o : pg_op),
+  pgt_copies_into w o d = (Bool.eqb d0 d && pg_foreign_handle w d0 h) ->
+  pgt_fin (pgt_T w o d) (pgt_copies_into w o d) w (fst (pg_insert w d0 h pos)) d.
+Proof.
+  intros w d0 h pos d o Hc. rewrite Hc. eapply pgt_fin_weaken; [|apply pgt_fin_of_C, pgt_insert].
+  intros j Hj. right. rewrite Hc. exact Hj.
+Qed.
+
+Lemma pgt_step_insert_after : forall w d0 p h pos d (o : pg_op),
+  pgt_dR (pg_get w d0) p ->
+  pgt_copies_into w o d = (Bool.eqb d0 d && pg_foreign_handle w d0 h) ->
+  pgt_fin (pgt_T w o d) (pgt_copies_into w o d) w (fst (pg_insert (pg_put w d0 p) d0 h pos)) d.
+Proof.
+  intros w d0 p h pos d o Hp Hc. rewrite Hc. eapply pgt_fin_weaken; [|apply pgt_fin_of_C].
+  - intros j Hj. right. rewrite Hc. exact Hj.
+  - eapply pgt_wC_trans_R_l; [apply pgt_wR_put, Hp|]. rewrite <- (pgt_foreign_put w d0 p h). apply pgt_insert.
 Qed.
